@@ -27,7 +27,10 @@ type envField struct {
 
 func (g *hostGen) envField(name string) envField {
 	inner := &HT{K: "struct", F: []HField{{Name: "P", Tag: "p", T: &HT{K: "float64"}}, {Name: "Q", Tag: "q", T: &HT{K: "string"}}}}
-	switch g.r.Rng.Intn(11) {
+	switch g.r.Rng.Intn(13) {
+	case 11, 12:
+		// an interface-typed field: its yae type follows the DYNAMIC value, so two values of one Go type can mismatch
+		return envField{name, &HT{K: "iface"}, "len(string(" + name + "))"}
 	case 8:
 		return envField{name, &HT{K: "slice", Elem: inner}, "len(" + name + ")"}
 	case 9:
@@ -157,9 +160,15 @@ func runC07(r *Run) {
 		pan, msg := protect(func() {
 			cl, err := e.Compile(src, i1)
 			if err != nil {
+				if _, terr := conv.TypeEnvOf(i1); terr != nil {
+					obs, cls = A("compile-env-error"), "compile-error"
+					return
+				}
 				obs, cls = A("compile-error"), "compile-error"
 				return
 			}
+			// an accepted call first (the compile-time value itself), then the observed call on the same Callable
+			cl(i1)
 			tl.ev = nil
 			v, err := cl(i2)
 			if err != nil {
